@@ -22,7 +22,10 @@ LEVEL_TEXT = ('Theorems (Props/C14.v): for EVERY well-formed UAM-IV file and EVE
               'LATERAL BOUNDARY files: C14_lbdy_every_prefix and C14_lbdy_reader_local (same statements for the lateral_boundary reader model); '
               'C14_lbdy_ntimes_is_floor shows that the reader\'s own ntimes test can never fire (floor divisions) - ragged prefixes are rejected by '
               'numpy.memmap\'s whole-number-of-items rule, which the model states explicitly. A subset of cuts of generated boundary files is '
-              'evaluated in Coq (constructor L), the full byte sweep stays in Python.')
+              'evaluated in Coq (constructor L), the full byte sweep stays in Python. '
+              'ONE3D FAMILY (one3d / humidity / vertical_diffusivity; Model/One3d.v, Proofs/One3dProofs.v; Memmap reader model with the translated record_items and time_steps expressions, reshapes / first-stamp-change / memmap size rules hand-modelled): C14_one3d_accepts_iff gives the EXACT set of accepted cuts (k >= 2 whole steps, presenting exactly the first k '
+              'steps; one whole step, record boundaries inside a step and ragged cuts all raise), C14_one3d_every_prefix, C14_one3d_reader_local, '
+              'C14_one3d_single_step_never_opens; a subset of cuts is evaluated in Coq (constructor OD) next to the full Python sweep.')
 LEVEL_NOTE = 'Trusted: Coq kernel+vm_compute, py2coq, harness. Met formats other than lateral_boundary: every-prefix sweep judged by the Python oracle only.'
 TECHNIQUE = 'Coq proof (prefix theorem for the reader model) + exhaustive byte-prefix sweep per generated file'
 
@@ -44,11 +47,14 @@ def _boundaries(c):
 
 
 def _pick_cuts(rng, bs, nwords, hdr_n, per_step, nsteps, count=16):
+    return _pick_cuts_at(rng, bs, nwords, [bs[hdr_n - 1 + k * per_step] for k in range(nsteps + 1) if hdr_n - 1 + k * per_step >= 0], count)
+
+
+def _pick_cuts_at(rng, bs, nwords, step_bounds, count=16):
     """byte cuts evaluated in Coq: ALWAYS every whole-step boundary (end of header, end of each step) and its +-1 / +-4
     byte neighbours; then record markers +-1/+-4 and random offsets up to `count` cuts"""
     must = set()
-    for k in range(nsteps + 1):
-        b = bs[hdr_n - 1 + k * per_step]
+    for b in step_bounds:
         must.update(4 * b + dlt for dlt in (0, -1, 1, -4, 4))
     must = sorted(x for x in must if 0 <= x < 4 * nwords)
     cuts = set()
@@ -160,6 +166,13 @@ def gen(rng, n, tier):  # noqa: F811
     for i in range(n):
         c = MC.gen_any(rng, tier=tier, min_steps=2)
         out.append(dict(kind='met-sweep-' + c['fmt'], content=c, write=False, sweep=True))
+        if c['fmt'] in M.O3_FORMATS:
+            # one3d family: a subset of cuts evaluated in Coq (Model/One3d.v) next to the full Python sweep
+            ri = c['nx'] * c['ny'] + 4
+            nrec = c['nz'] * len(c['steps'])
+            bs = [ri * (j + 1) for j in range(nrec)]
+            for x in _pick_cuts_at(rng, bs, ri * nrec, [ri * c['nz'] * k for k in range(1, len(c['steps']) + 1)], 14):
+                out.append(dict(kind='o3-cut', content=c, cut=x))
     # lateral-boundary files: a subset of cuts evaluated in Coq (Model/Lbdy.v); the full Python sweep of every prefix
     # runs on the lateral_boundary share of the met-sweep stream above (and on every third file of this stream)
     for i in range(max(1, n // 6)):
@@ -179,6 +192,8 @@ _impl_u = impl
 def impl(case):  # noqa: F811
     if MC.is_lb(case):
         return MC.run_lb(case)
+    if MC.is_o3(case):
+        return MC.run_o3(case)
     if case['kind'].startswith('met-'):
         return MC.run_met(case)
     return _impl_u(case)
@@ -190,6 +205,8 @@ _coq_u = coq_term
 def coq_term(case, obs):  # noqa: F811
     if MC.is_lb(case):
         return None if 'raises' in obs else MC.lb_term_read(case, obs)
+    if MC.is_o3(case):
+        return None if 'raises' in obs else MC.o3_term(case, obs)
     if case['kind'].startswith('met-'):
         return None
     return _coq_u(case, obs)
@@ -205,6 +222,11 @@ def py_check(case, obs):  # noqa: F811
         why = MC.lb_py_check(case, obs)
         if (obs.get('full') or {}).get('status') != 'ok':
             why.append('library reader %s on the whole file' % (obs.get('full') or {}).get('status'))
+        return dict(s_ok=not why, region=0, why='; '.join(why[:3]))
+    if MC.is_o3(case):
+        if 'raises' in obs:
+            return dict(s_ok=False, why='harness/impl raised ' + str(obs))
+        why = MC.o3_py_check(case, obs)
         return dict(s_ok=not why, region=0, why='; '.join(why[:3]))
     if not case['kind'].startswith('met-'):
         return _py_u(case, obs)
@@ -236,7 +258,7 @@ _nt_u = nontrivial
 
 
 def nontrivial(case, obs):  # noqa: F811
-    if MC.is_lb(case):
+    if MC.is_lb(case) or MC.is_o3(case):
         return True
     if case['kind'].startswith('met-'):
         return len(obs.get('sweep', {}).get('accepted', [])) > 0
